@@ -182,9 +182,12 @@ structure Idx (Sel : Type) where
   tries : List (String × List Cidr)
   out : List Event
   panicked : Bool
+  /-- ghost: a `uint64` refcount was decremented at 0 (Go wraps silently to 2^64-1). -/
+  underflow : Bool
 
 def Idx.new (Sel : Type) (suppress : Bool) : Idx Sel :=
-  { suppress := suppress, eps := [], parents := [], ipsets := [], tries := [], out := [], panicked := false }
+  { suppress := suppress, eps := [], parents := [], ipsets := [], tries := [], out := [], panicked := false,
+    underflow := false }
 
 section
 variable {Sel : Type} [DecidableEq Sel]
@@ -255,12 +258,14 @@ def decref (s : String) (m : Member) (st : Idx Sel) : Idx Sel :=
   | none => { st with panicked := true }
   | some d =>
     let rc := refOf d m
-    let n := if rc = 0 then 2 ^ 64 - 1 else rc - 1
-    if n = 0 then
+    if rc = 0 then
+      { st with ipsets := alMod s (fun d => { d with refc := alSet m (2 ^ 64 - 1) d.refc }) st.ipsets,
+                underflow := true }
+    else if rc - 1 = 0 then
       let st1 := onMemberRemoved s m st
       { st1 with ipsets := alMod s (fun d => { d with refc := alErase m d.refc }) st1.ipsets }
     else
-      { st with ipsets := alMod s (fun d => { d with refc := alSet m n d.refc }) st.ipsets }
+      { st with ipsets := alMod s (fun d => { d with refc := alSet m (rc - 1) d.refc }) st.ipsets }
 
 def increfAll (s : String) (ms : List Member) (st : Idx Sel) : Idx Sel :=
   ms.foldl (fun st m => incref s m st) st
